@@ -3,6 +3,7 @@
   All 2^24 NetIDs × all 2^32 DevAddrs by reasoning (per-bit characterisation); representations for every identifier value.
 -/
 import LW.Proofs.Addr
+import LW.Proofs.AddrArith
 namespace LW.C11
 open LW Outcome
 
@@ -12,12 +13,23 @@ theorem C11_setPrefix (n : BitVec 24) (a : BitVec 32) (i : Nat) (hi : i < 32) :
     (setAddrPrefix a n).getLsbD i = Spec.addrBit n.getLsbD (n.toNat / 2 ^ 21) a.getLsbD i :=
   AddrProofs.setPrefix_bits n a i hi
 
+/-- the same rule in arithmetic form — prefix · 2^(31−t) + (ID mod 2^w) · 2^rest + (address mod 2^rest), the oracle every Go result is
+compared with — is exactly what the code computes, for all 2^24 × 2^32 pairs -/
+theorem C11_setPrefix_arith (n : BitVec 24) (a : BitVec 32) : (setAddrPrefix a n).toNat = Spec.addrWithPrefix n.toNat a.toNat :=
+  Spec.setAddrPrefix_arith n a
+
+/-- … and so is the membership test: "the address has the NetID's type (number of leading ones) and its NwkID field equals the low
+w bits of the NetID's ID" -/
+theorem C11_isNetID_arith (n : BitVec 24) (a : BitVec 32) : isNetID a n = Spec.addrInNetID n.toNat a.toNat :=
+  Spec.isNetID_arith n a
+
 /-- the NwkAddr bits are untouched -/
 theorem C11_nwkaddr_untouched (n : BitVec 24) (a : BitVec 32) (i : Nat)
     (hi : i < 31 - n.toNat / 2 ^ 21 - Spec.nwkIDWidth (n.toNat / 2 ^ 21)) :
     (setAddrPrefix a n).getLsbD i = a.getLsbD i := by
   rw [C11_setPrefix n a i (by omega)]
-  simp [Spec.addrBit, hi]
+  simp only [Spec.addrBit]
+  rw [if_pos hi]
 
 /-- the membership test is true exactly for addresses carrying that type prefix and NwkID -/
 theorem C11_isNetID_iff (n : BitVec 24) (a : BitVec 32) :
@@ -33,7 +45,7 @@ theorem C11_prefixed_is_member (n : BitVec 24) (a : BitVec 32) : isNetID (setAdd
   rw [C11_setPrefix n a i hi]
   simp only [Spec.addrBit]
   have : ¬ i < 31 - n.toNat / 2 ^ 21 - Spec.nwkIDWidth (n.toNat / 2 ^ 21) := by omega
-  simp [this]
+  rw [if_neg this, if_neg this]
 
 /-- NetID type = top 3 bits -/
 theorem C11_netIDType (n : BitVec 24) : netIDType n = n.toNat / 2 ^ 21 := AddrProofs.netIDType_eq n
